@@ -112,7 +112,10 @@ def compile_ob(ob, wd, extra_defs=(), extra_inc=()):
     return cur, None
 
 def cbmc_cmd(ob, gb, trace=True):
-    cmd = ["cbmc", gb, "--function", ob["entry"], "--unwinding-assertions", "--drop-unused-functions", "--json-ui", "--verbosity", "8"]
+    cmd = ["cbmc", gb, "--function", ob["entry"], "--drop-unused-functions", "--json-ui", "--verbosity", "8"]
+    # unwinding assertions are always on, except for an explicitly justified inductive-step
+    # obligation (ob["partial_loops"] = the written justification, copied into evidence)
+    cmd += ["--no-unwinding-assertions"] if ob.get("partial_loops") else ["--unwinding-assertions"]
     if ob.get("unwind") is not None: cmd += ["--unwind", str(ob["unwind"])]
     if ob.get("unwindset"): cmd += ["--unwindset", ",".join(ob["unwindset"])]
     if not ob.get("malloc_may_fail"): cmd += ["--no-malloc-may-fail"]
@@ -224,7 +227,8 @@ def do_obligation(pid, ob, tier, keep):
     wd = os.path.join(WORK, pid, re.sub(r"[^A-Za-z0-9_.-]", "_", name))
     shutil.rmtree(wd, ignore_errors=True); os.makedirs(wd)
     rec = dict(name=name, desc=ob.get("desc", ""), harness=ob["harness"], entry=ob["entry"], unwind=ob.get("unwind"),
-               unwindset=ob.get("unwindset", []), defines=ob.get("defines", []), verdict=None, violations=[], witnesses=0)
+               unwindset=ob.get("unwindset", []), defines=ob.get("defines", []), verdict=None, violations=[], witnesses=0,
+               partial_loops=ob.get("partial_loops"))
     mem = ob.get("mem_gb", 6)
     got = GATE.acquire(mem)
     try:
@@ -369,7 +373,7 @@ def main():
     samples = []
     for r in recs[:60]:
         samples.append({k: r.get(k) for k in ("name", "desc", "entry", "harness", "unwind", "unwindset", "defines", "verdict", "steps", "vccs",
-                                              "properties", "discharged", "witnesses", "wall_s", "solver_s", "rss_mb", "witness_inputs", "no_body") if r.get(k) not in (None, [], "")})
+                                              "properties", "discharged", "witnesses", "wall_s", "solver_s", "rss_mb", "witness_inputs", "no_body", "partial_loops") if r.get(k) not in (None, [], "")})
     cov = dict(
         obligations=sum((r.get("properties") or 0) for r in recs) or n_ob,
         discharged=sum((r.get("discharged") or 0) + (r.get("witnesses") or 0) for r in recs) or n_ok,
